@@ -51,6 +51,18 @@ def gen_cases(tier, seed):
         cases.append("epoch2 %d %d %d %d" % (s1, n1, s2, n2))
     for s, n in pts[:: 7 if tier == "quick" else 1]:
         cases.append("epoch_frames %d %d" % (s, n))
+    # frames generated in succession under a clock that advances with every reading, started just below every kind of
+    # boundary: a second, 2^32 microseconds (one 32-bit half of the timestamp), 2^32 seconds
+    B32 = (1 << 32)                                  # microseconds
+    for k in (1, 2, 7, 395000):                      # k * 2^32 us since the epoch (395000: the year 2023)
+        us = k * B32
+        for back in (1, 2, 3, 5, 8):
+            for step in (1000, 1500, 999, 2000, 1000000):
+                st = us - back
+                cases.append("epoch_ticks %d %d %d 4" % (st // 1000000, (st % 1000000) * 1000 + rng.choice([0, 1, 999]), step))
+    for s0 in (0, 1, 1699999999, (1 << 32) - 1):
+        for step in (1, 999, 1000, 400000000, 999999999):
+            cases.append("epoch_ticks %d %d %d 4" % (s0, 999999000 + rng.randrange(1000), step))
     return cases, {"grid_points": len(pts), "random_pairs": nr, "total": len(cases)}
 
 
@@ -64,6 +76,15 @@ def judge(case, impl, model, spec=None):
         if v1 > v2:
             return ("non-monotone", "reading (%s,%s) gives %d but the later reading (%s,%s) gives %d" %
                     (t[1], t[2], v1, t[3], t[4], v2))
+    elif t[0] == "epoch_ticks":
+        o = impl.split()[1:]
+        if "err" in o:
+            return ("frame-generation-failed", impl)
+        vals = [int(x.split("/")[0]) for x in o]
+        for i in range(len(vals) - 1):
+            if vals[i] > vals[i + 1]:
+                return ("frames-run-backwards", "clock advancing by %s ns per reading from (%s,%s): frame %d carries %d, the next frame %d"
+                        % (t[3], t[1], t[2], i, vals[i], vals[i + 1]))
     elif t[0] == "epoch_frames":
         o = impl.split()
         if len(set(o[1:])) != 1 or "err" in o[1:]:
@@ -75,6 +96,6 @@ def nontrivial(case, impl):
     t = case.split()
     if t[0] == "epoch2" and (t[1], t[2]) != (t[3], t[4]):
         return case
-    if t[0] == "epoch_frames":
+    if t[0] in ("epoch_frames", "epoch_ticks"):
         return case
     return None
